@@ -129,7 +129,7 @@ class Check:
         self.seed = seed
         self.level = level
         self.t0 = time.time()
-        self.work = os.path.join(WORK, prop)
+        self.work = os.path.join(WORK, prop if REPO == "/repo" else prop + "-alt")  # a run against a scratch tree never shares a directory with a run against /repo
         if os.path.isdir(self.work):
             shutil.rmtree(self.work, ignore_errors=True)
         os.makedirs(os.path.join(self.work, "out"), exist_ok=True)
